@@ -127,7 +127,67 @@ def _mk_UInit(g):
         "__annotations__": {"u": object, "v": object}, "__init__": uinit_init}))
 
 
+# round 4: fields that are not positional constructor parameters
+# the ambient context a field(init=False) field is taken from by __post_init__ (think of a
+# current scope / name generator); _AMBIENT_DEFAULT when nothing in particular is going on
+_AMBIENT_DEFAULT = 0
+_AMBIENT = {}
+
+
+def _mk_UKw(g):
+    """u, t (keyword-only, default, declared between the positional fields), v (default)"""
+    from dataclasses import field
+    from pymbolic.primitives import Expression, expr_dataclass
+    return expr_dataclass()(type("UKw", (Expression,), {
+        "__annotations__": {"u": object, "t": object, "v": object},
+        "t": field(kw_only=True, default=0), "v": 0}))
+
+
+def _mk_UKwCse(g):
+    """CommonSubexpression's prefix / scope have defaults, so a field without one has to be
+    keyword-only; get_extra_properties is the documented hook through which mappers hand
+    it back to the constructor"""
+    from dataclasses import field
+    from pymbolic.primitives import CommonSubexpression, expr_dataclass
+    return expr_dataclass()(type("UKwCse", (CommonSubexpression,), {
+        "__annotations__": {"tag": object}, "tag": field(kw_only=True),
+        "get_extra_properties": lambda self: {"tag": self.tag}}))
+
+
+def _mk_UInitF(g):
+    """u, lab (not a constructor parameter: __post_init__ takes it from the ambient
+    context), v (default)"""
+    from dataclasses import field
+    from pymbolic.primitives import Expression, expr_dataclass
+
+    def post_init(self):
+        object.__setattr__(self, "lab", _AMBIENT.get("lab", _AMBIENT_DEFAULT))
+
+    return expr_dataclass()(type("UInitF", (Expression,), {
+        "__annotations__": {"u": object, "lab": object, "v": object},
+        "lab": field(init=False), "v": 0, "__post_init__": post_init}))
+
+
+# classes whose objects are built from the dataclass field table: positional parameters by
+# position, keyword-only ones by keyword, init=False ones through the ambient context
+BY_FIELD_TABLE = {"UKw", "UKwCse", "UInitF"}
+
+
+def _construct(cls, vals):
+    import dataclasses
+    flds = dataclasses.fields(cls)
+    pos = [v for f, v in zip(flds, vals) if f.init and not f.kw_only]
+    kw = {f.name: v for f, v in zip(flds, vals) if f.init and f.kw_only}
+    amb = {f.name: v for f, v in zip(flds, vals) if not f.init}
+    _AMBIENT.update(amb)
+    try:
+        return cls(*pos, **kw)
+    finally:
+        _AMBIENT.clear()
+
+
 _MAKERS = {
+    "UKw": _mk_UKw, "UKwCse": _mk_UKwCse, "UInitF": _mk_UInitF,
     "URoot": _mk_URoot, "UChild": _mk_UChild, "ULeg": _mk_ULeg, "ULegChild": _mk_ULegChild,
     "UPlain": lambda g: type("UPlain", (g("URoot"),), {}),
     "UPlain2": lambda g: type("UPlain2", (g("UPlain"),), {}),
@@ -254,7 +314,10 @@ def build(j):
         d = {e["k"]: build(e["v"]) for e in j["kv"]}
         return immutabledict(d) if j["mt"] == "imm" else d
     if t == "N":
-        return _classes()[0][j["cls"]](*[build(f) for f in j["f"]])
+        vals = [build(f) for f in j["f"]]
+        if j["cls"] in BY_FIELD_TABLE:
+            return _construct(_classes()[0][j["cls"]], vals)
+        return _classes()[0][j["cls"]](*vals)
     raise ValueError(t)
 
 
